@@ -42,7 +42,7 @@ def register(R):
     # ---- _propagate_implicit_values -----------------------------------------------------------
     def piv_req(c):
         s = c.ref('self')
-        return [('valid-self', S.valid_flags(c.pre, s)), ('wft-axiom', S.wft_axiom(c.eng, c.pre), {'static': S.STRUCT_FIELDS}), ('wft-self', S.WFT(s)), ('desc-valid', S.desc_valid(c.pre, s))]
+        return [('valid-self', S.valid_flags(c.pre, s)), S.subwf_clause(c.eng, c.pre, s), ('desc-valid', S.desc_valid(c.pre, s))]
 
     def child_post(c, pre, post, s, ch, which=None):
         early = S.early_return(pre, s)
@@ -108,3 +108,58 @@ def register(R):
                    modifies=lambda c: [(f, (lambda r, c=c: S.Desc(c.ref('self'), r))) for f in S.IMPLICIT],
                    ensures=[('piv', piv_ens)], props=('C07', 'C15', 'C19'),
                    loops={0: Loop(piv_inv, mod_locals=['child', 'fix'], mod_fields=S.IMPLICIT)}))
+
+
+def register_set_child(R):
+    """ComposedNode.ayns.set_child with the flags an adopted child inherits (C04, C07, C08)"""
+    comp = lambda: P.node('self', 'ComposedNode')
+
+    def chref(h, r):
+        return r_of(h.get('_children', r))
+
+    def is_node(c, h, t):
+        return z3.And(is_ref(t), c.eng.isinstance_term(h.cls(r_of(t)), 'ConfigNode'))
+
+    def req(c):
+        s = c.ref('self')
+        t = c['value']
+        vr = r_of(t)
+        x = z3.Int('!sx')
+        node = is_node(c, c.pre, t)
+        mm = S.children(c.pre, s)
+        kk = z3.Const('!wfk', Val)
+        return [('valid-self', S.valid_flags(c.pre, s)),
+                ('value-ok', z3.Implies(node, z3.And(S.valid_flags(c.pre, vr), S.desc_valid(c.pre, vr), vr > 0))),
+                S.subwf_clause(c.eng, c.pre, vr, guard=node),
+                ('value-apart', z3.Implies(node, S.FA([x], z3.Implies(S.In(vr, x), z3.And(x != s, chref(c.pre, x) != chref(c.pre, s), chref(c.pre, x) != s)), patterns=[S.Desc(vr, x)]))),
+                ('children-dict-wellformed', z3.And(mm.len >= 0, S.FA([kk], z3.And(z3.Select(mm.pos, kk) >= -1, z3.Select(mm.pos, kk) < mm.len), patterns=[z3.Select(mm.pos, kk)]))),
+                ('children-is-dict', z3.And(is_ref(c.pre.get('_children', s)), c.alive(chref(c.pre, s)), c.pre.cls(chref(c.pre, s)) == c.cid('dict')))]
+
+    def ens(c):
+        s = c.ref('self')
+        m0, m1 = S.children(c.pre, s), S.children(c.post, s)
+        rr = r_of(c.rt)
+        return [('C17.result-is-node', is_node(c, c.post, c.rt)),
+                ('C17.node-argument-is-stored-itself', z3.Implies(is_node(c, c.pre, c['value']), c.rt == c['value'])),
+                ('C17.child-view-is-old-view-with-name-bound-to-result', m1.eq(m0.set(c['name'], c.rt))),
+                ('C07.adopted-child-inherits-unsafety', z3.Implies(S.inh_safe(c.pre, s) == sym.FALSE, c.post.get('_implicit_safe', rr) == sym.FALSE)),
+                ('C07.adoption-never-resets-unsafe-mark', z3.Implies(z3.And(is_node(c, c.pre, c['value']), c.pre.get('_implicit_safe', rr) == sym.FALSE),
+                                                                     c.post.get('_implicit_safe', rr) == sym.FALSE)),
+                ('C04.adopted-child-inherits-delete', c.post.get('_implicit_delete', rr) == S.inh_delete(c.eng, c.pre, s)),
+                ('C08.adopted-child-inherits-allow_new', c.post.get('_implicit_allow_new', rr) == S.inh_allow_new(c.pre, s)),
+                ('result-valid', S.valid_flags(c.post, rr))]
+
+    def mods(c):
+        t = c['value']
+        vr = r_of(t)
+        s = c.ref('self')
+        return [(f, [chref(c.pre, s)]) for f in ('$mlen', '$mkeyat', '$mpos', '$mval')] + \
+               [(f, (lambda r, vr=vr, t=t: z3.And(is_ref(t), z3.Or(r == vr, S.Desc(vr, r))))) for f in ['_priority', '_pyyaml_node'] + S.IMPLICIT]
+
+    R.add(Contract(C + 'ComposedNode.ayns.set_child', [comp(), P.val('name', 'key'), P.val('value', 'any')], requires=req, modifies=mods,
+                   ensures=[('set_child', ens)], result=P.node('result', 'ConfigNode', maybe_fresh=True), props=('C17', 'C07', 'C04', 'C08'), opts={'shards': 12}))
+
+
+def _reg_all(R):
+    register(R)
+    register_set_child(R)
